@@ -60,8 +60,6 @@ BOUNDS = {
     "assign_contract_two_conditions": "condition_domains.len() == 2",
     "range_table_contains_iff_inside_some_range_0": "0 recorded ranges, <= 1 open block; HashMap replaced by an association-list stand-in",
     "range_table_contains_iff_inside_some_range_1": "1 recorded range, <= 1 open block; HashMap replaced by an association-list stand-in",
-    "range_table_contains_iff_inside_some_range_2_same_file": "2 recorded ranges in one symbolic file, <= 1 open block; HashMap replaced by an association-list stand-in",
-    "range_table_contains_iff_inside_some_range_2_two_files": "2 recorded ranges in files 3 and 5, <= 1 open block; HashMap replaced by an association-list stand-in",
 }
 
 
@@ -127,11 +125,11 @@ def build(ctx, res):
                                      "error log == [invalid_clock_assignment if clock/reset typed in always_ff] ++ [mismatch(dst', x) for x in rhs, always_ff clock, each condition "
                                      "if !may_move(dst', x) && !cdc-block(token.beg)] in that order, lhs token = dst.token; one table lookup per check, about token.beg",
         "TokenRange::include": "requires (beg.line,beg.column) <= (end.line,end.column); ensures r == (beg.source is File/Generated of `path` && beg <= (line,column) <= end lexicographically)",
-        "RangeTable::contains": "bounded (<= 2 ranges inserted with the real insert, <= 1 open block): contains(token, v) <=> token is a File token lying in some recorded range "
+        "RangeTable::contains": "bounded (<= 1 range inserted with the real insert, <= 1 open block; two ranges do not finish in CBMC): contains(token, v) <=> token is a File token lying in some recorded range "
                                 "of its file (closed interval) || an open block carries v",
     })
     res.samples.append({"obligation": "kani:cdc:check_error_iff_crossing_outside_unsafe_cdc",
                         "contract": "n_errors == (if !may_move(model(lhs), model(rhs)) && !token.in_unsafe_cdc {1} else {0}); last error == (lhs, rhs)"})
     res.samples.append({"obligation": "kani:cdc:include_is_closed_interval_in_file",
                         "contract": "include(path,line,column) == (in_file(beg.source,path) && pos_le(beg,(line,column)) && pos_le((line,column),end)) for beg <= end"})
-    return [KaniJob("cdc", lib, hs, deps={}, items=items, trusted=TRUSTED, jobs=4, timeout=1500, per_harness_timeout=400)]
+    return [KaniJob("cdc", lib, hs, deps={}, items=items, trusted=TRUSTED, jobs=4, timeout=2400, per_harness_timeout=900)]
